@@ -11,20 +11,42 @@ ESC = {"<": "&lt;", ">": "&gt;", '"': "&quot;", "'": "&apos;", "&": "&amp;"}
 
 def run(ctx):
     p, r = ctx.p, ctx.r
-    A = r.rule("R12-a", "XmlEscaped::fmt maps < > \" ' & to their five entities and every other character to itself; in "
+    A = r.rule("R12-a", "XmlEscaped::fmt maps < > \" ' & to their five entities — each in one arm without a guard, whatever surrounds "
+                        "the character — and every other character to itself; in "
                         "output_checkstyle_file every value derived from a DiffLine payload is wrapped in XmlEscaped")
-    lm = [x for x in p.hir["hir_litmatch"] if "XmlEscaped" in x["owner"] and x["owner"].endswith("::fmt")]
+    def _xml_family():
+        fam = {f.id for f in p.fns.values() if "XmlEscaped" in (f.root or f.id) and (f.root or f.id).endswith("::fmt")}
+        # the table may live in a helper of the same module that the formatter calls (`xml_entity(char)`)
+        for fid in list(fam):
+            for c in p.fns[fid].calls():
+                if c.name in p.fns and "emitter::checkstyle" in c.name:
+                    fam.add(c.name)
+        return fam
+    xfam = _xml_family()
+    lm = [x for x in p.hir["hir_litmatch"] if x.get("scrut_ty") == "char" and (
+        x["owner"] in xfam or any(x["owner"].startswith(o + "::{closure") for o in xfam))]
     if len(lm) != 1:
         r.undecidable(A, "literal match of XmlEscaped::fmt not found (%d)" % len(lm))
     else:
         got = {}
         wild_ok = False
+        conditional = {}
         for a in lm[0]["arms"]:
             chars = [x["char"] for x in a["pats"] if isinstance(x, dict) and "char" in x]
             for ch in chars:
+                if a.get("guard") or ch in got:
+                    conditional[ch] = a["strs"] if a.get("guard") else got[ch]
                 got[ch] = a["strs"]
             if a["wild"] and not chars:
-                wild_ok = (a["strs"] == [] or all("&" not in s for s in a["strs"]))
+                wild_ok = (a["strs"] == [] or all("&" not in s for s in a["strs"])) and not a.get("guard")
+        for ch, strs in sorted(conditional.items()):
+            # the entity must be written whatever surrounds the character: an arm with an `if` guard (or a second arm for the
+            # same character) makes the translation depend on context
+            r.instance(A, "escape %r is unconditional" % ch, "violation", "src/emitter/checkstyle/xml.rs")
+            r.violation(A, "XmlEscaped: %r is translated conditionally" % ch,
+                        "an arm for %r carries a guard (it writes %s when the guard holds): whether the character is escaped "
+                        "depends on its neighbours, so some source text (`&lt;` written literally in a string) reaches the "
+                        "report unescaped and reads back as different text" % (ch, strs), ["src/emitter/checkstyle/xml.rs"])
         for ch, ent in ESC.items():
             ok = got.get(ch) == [ent]
             r.cells(A, 1)
@@ -47,22 +69,39 @@ def run(ctx):
     else:
         # every fmt::Argument built from a String taken out of a DiffLine must go through XmlEscaped
         n = 0
-        for c in oc.calls():
-            if not ("fmt::rt::Argument" in c.name and c.name.rsplit("::", 1)[-1].startswith("new_")):
+        # (function, predicate "this local carries a DiffLine payload"): output_checkstyle_file itself, and a helper of the
+        # module that is handed the payload (`write_checkstyle_error(writer, line, &message)`)
+        work = [(oc, None)]
+        for hc in oc.calls():
+            h = p.fns.get(hc.name)
+            if h is None or "emitter::checkstyle" not in h.id:
                 continue
-            if c.args[0][0] == "k":
-                continue
-            d = oc.derived_from(c.args[0][1][0])
-            from_diffline = any(x[0] and x[0].endswith("rustfmt_diff::DiffLine") for x in d["fields"])
-            if not from_diffline:
-                continue
-            n += 1
-            ty = c.ga[0] if c.ga else ""
-            ok = "XmlEscaped" in ty
-            r.instance(A, "checkstyle interpolation of a DiffLine payload as %s" % short(ty), "ok" if ok else "violation", c.loc())
-            if not ok:
-                r.violation(A, "output_checkstyle_file interpolates a diff line as %s" % short(ty),
-                            "text taken from the source is written into the XML report without XmlEscaped", [c.loc()])
+            carried = set()
+            for i, a in enumerate(hc.args):
+                if a[0] != "k" and any(x[0] and x[0].endswith("rustfmt_diff::DiffLine") for x in oc.derived_from(a[1][0])["fields"]):
+                    carried.add(i + 1)
+            if carried:
+                work.append((h, carried))
+        for (g, carried) in work:
+            for c in g.calls():
+                if not ("fmt::rt::Argument" in c.name and c.name.rsplit("::", 1)[-1].startswith("new_")):
+                    continue
+                if c.args[0][0] == "k":
+                    continue
+                d = g.derived_from(c.args[0][1][0])
+                if carried is None:
+                    from_diffline = any(x[0] and x[0].endswith("rustfmt_diff::DiffLine") for x in d["fields"])
+                else:
+                    from_diffline = bool(d["args"] & carried)
+                if not from_diffline:
+                    continue
+                n += 1
+                ty = c.ga[0] if c.ga else ""
+                ok = "XmlEscaped" in ty
+                r.instance(A, "checkstyle interpolation of a DiffLine payload as %s" % short(ty), "ok" if ok else "violation", c.loc())
+                if not ok:
+                    r.violation(A, "%s interpolates a diff line as %s" % (short(g.id), short(ty)),
+                                "text taken from the source is written into the XML report without XmlEscaped", [c.loc()])
         r.floor(A, n, 1, "interpolations of DiffLine payloads in output_checkstyle_file")
         r.note("R12-a: the file *name* is interpolated unescaped (`<file name=\"{filename}\">`); the statement quantifies over the "
                "characters of the source, so this is noted, not reported")
@@ -169,6 +208,9 @@ def run(ctx):
                 rv = d[2][2]
                 if rv[0] == "ref" and not rv[2][1]:
                     return rv[2][0]
+                fl = [e for e in rv[2][1] if isinstance(e, list) and e[0] == "f"] if rv[0] == "ref" else []
+                if fl and fl[-1][2] and fl[-1][2].endswith("MismatchedBlock"):
+                    return "field:" + str(fl[-1][4])      # `block.expected.push_str(..)`: the text goes straight into the field
                 if rv[0] == "ref" and rv[2][1] == ["*"]:
                     l = rv[2][0]
                 elif rv[0] == "use":
@@ -209,8 +251,10 @@ def run(ctx):
                                         break
                                     l = op_local(d[2][2][1])
                                     hops += 1
-            exp_f = {field_of.get(l) for l in buf.get("Expected", ())}
-            res_f = {field_of.get(l) for l in buf.get("Resulting", ())}
+            def fld(l):
+                return l[6:] if isinstance(l, str) and l.startswith("field:") else field_of.get(l)
+            exp_f = {fld(l) for l in buf.get("Expected", ())}
+            res_f = {fld(l) for l in buf.get("Resulting", ())}
             okj = exp_f == {"expected"} and res_f == {"original"} and not buf.get("Context")
             r.instance(C, "json: Expected text → field %s, Resulting text → field %s, Context → %s" % (
                 sorted(map(str, exp_f)), sorted(map(str, res_f)), sorted(buf.get("Context", ()))), "ok" if okj else "violation",
@@ -222,7 +266,9 @@ def run(ctx):
                             "lines nowhere", ["%s:%d" % (ja.file, ja.line)])
     oc2 = oc
     if oc2 is not None:
-        t = kinds_to_effects(oc2, lambda c: c.declared == "std::io::Write::write_fmt")
+        writers = {h.id for h in p.by_crate["rustfmt_nightly"] if "emitter::checkstyle" in h.id and h.id != oc2.id
+                   and any(c.declared == "std::io::Write::write_fmt" for c in h.calls())}
+        t = kinds_to_effects(oc2, lambda c: c.declared == "std::io::Write::write_fmt" or c.name in writers)
         if t is not None:
             w = {k: len([x for x in v if x[0] == "call"]) for k, v in t.items()}
             okc = w.get("Expected", 0) >= 1 and not w.get("Resulting") and not w.get("Context")
@@ -274,6 +320,7 @@ def run(ctx):
     diff_sees_whole_texts(ctx, "R12-f")
     reader_reads_the_text_as_written(ctx, "R12-g")
     running_totals_advance_every_round(ctx, "R12-h")
+    every_report_comes_from_the_line_diff(ctx, "R12-i")
 
 
 def name_root(fn, op, depth=0):
@@ -550,3 +597,45 @@ def running_totals_advance_every_round(ctx, rid):
                             "there is a way back to the loop head that does not assign it from the element's cumulative `diff`: "
                             "after a skipped entry every later increase is computed against a stale total", ["%s:%d" % (f.file, f.line)])
     r.floor(rid, n, 1, "running totals over normalized_pos.diff in get_original_snippet")
+
+
+def every_report_comes_from_the_line_diff(ctx, rid):
+    """R12-i: make_diff has one source of Mismatches — the items diff::lines yields"""
+    p, r = ctx.p, ctx.r
+    r.rule(rid, "rustfmt_diff::make_diff: a path that reaches a return without calling diff::lines returns no report built on that "
+                "path — on such a path the returned vector derives from no call that yields a Mismatch (a Vec / Option / tuple of "
+                "them) other than an empty constructor. diff::lines is the only place that compares the *ends* of the two texts "
+                "(its last item says whether each ends in a newline); a short cut that builds the report some other way — a "
+                "block replace for large inputs — describes a text without that record, and the json / checkstyle / "
+                "modified-lines reports then imply a file that differs from the formatted text in its last byte")
+    f = p.named("make_diff", within="rustfmt_diff")
+    if f is None:
+        r.undecidable(rid, "rustfmt_diff::make_diff not found")
+        return
+    dl = [c for c in f.calls() if c.name.endswith("diff::lines")]
+    if not dl:
+        r.undecidable(rid, "make_diff does not call diff::lines")
+        return
+    stop = [c.bb for c in dl]
+    fwd = set(f.reachable(0, stop_blocks=stop)) - set(stop)
+    rets = [b for b in f.returns() if b in fwd]
+    back = set()
+    for b in fwd:
+        if any(x in f.reachable(b, stop_blocks=stop) for x in rets):
+            back.add(b)
+    n = len(dl)
+    EMPTY = ("Vec::<T>::new", "Vec::<T>::with_capacity", "Default>::default", "VecDeque::<T>::new", "VecDeque::<T>::with_capacity")
+    bad = []
+    if rets:
+        d = f.derived_from(0)
+        for c in d["calls"]:
+            if c.bb in back and c.dest and "Mismatch" in f.locals[c.dest[0]] and not any(c.name.endswith(e) for e in EMPTY):
+                bad.append(c)
+    r.instance(rid, "make_diff: returns that bypass diff::lines", "violation" if bad else "ok", "%s:%d" % (f.file, f.line),
+               "%d return(s) reachable without the call; reports built on those paths: %s" % (len(rets), [short(c.name) for c in bad]))
+    if bad:
+        r.violation(rid, "make_diff returns a report that does not come from diff::lines",
+                    "a return is reachable without calling diff::lines and its value derives from %s: the end-of-text newline "
+                    "record only diff::lines produces is missing from that report" % sorted({short(c.name) for c in bad}),
+                    [c.loc() for c in bad])
+    r.floor(rid, n, 1, "diff::lines calls in make_diff")
